@@ -243,3 +243,60 @@ pub proof fn lemma_valp_zero_iff(s: Seq<u64>, k: nat)
         }
     }
 }
+
+/// val(s) >= B^(len-1) forces a non-zero top digit
+pub proof fn lemma_top_nonzero(s: Seq<u64>)
+    requires s.len() > 0, val(s) >= pw((s.len() - 1) as nat)
+    ensures s[s.len() - 1] != 0
+{
+    let k = (s.len() - 1) as nat;
+    lemma_valp_bound(s, k);
+    if s[k as int] == 0 {
+        assert(0 * pw(k) == 0) by (nonlinear_arith);
+    }
+}
+
+/// monotonicity helper: a wf non-empty sequence plus anything that does not overflow keeps a non-zero top digit
+pub proof fn lemma_wf_after_add(f: Seq<u64>, o: Seq<u64>, extra: nat)
+    requires f.len() == o.len(), o.len() > 0, wf(o), val(f) == val(o) + extra
+    ensures wf(f)
+{
+    lemma_wf_lower(o);
+    lemma_top_nonzero(f);
+}
+
+pub proof fn lemma_val_single(d: u64)
+    ensures val(seq![d]) == d as nat
+{
+    let s = seq![d];
+    assert(valp(s, 1) == valp(s, 0) + (s[0] as nat) * pw(0));
+    assert((d as nat) * 1 == d as nat) by (nonlinear_arith);
+}
+
+/// the high part of a wf sequence (from index n < len) is wf and non-empty
+pub proof fn lemma_wf_sub_hi(s: Seq<u64>, n: nat)
+    requires wf(s), n < s.len()
+    ensures wf(s.subrange(n as int, s.len() as int)), s.subrange(n as int, s.len() as int).len() > 0
+{
+}
+
+/// arithmetic of AddAssign's long-rhs branch
+pub proof fn lemma_addassign_recompose(s0: nat, olo: nat, ohi: nat, d1: nat, hi3: nat, pn: nat, pmn: nat, c1: nat, c2: nat)
+    requires d1 + pn * c1 == s0 + olo, hi3 + pmn * c2 == ohi + c1
+    ensures d1 + pn * hi3 + (pn * pmn) * c2 == s0 + (olo + pn * ohi)
+{
+    assert(pn * (hi3 + pmn * c2) == pn * hi3 + (pn * pmn) * c2) by (nonlinear_arith);
+    assert(pn * (ohi + c1) == pn * ohi + pn * c1) by (nonlinear_arith);
+}
+
+/// arithmetic of `&a - b` with a longer than b
+pub proof fn lemma_subrev_recompose(slo: nat, shi: nat, o: nat, d1: nat, hi3: nat, pn: nat, b: nat)
+    requires d1 + o == slo + pn * b, b <= 1, b == 0 ==> hi3 == shi, b == 1 ==> hi3 + 1 == shi
+    ensures d1 + pn * hi3 + o == slo + pn * shi
+{
+    if b == 0 { assert(pn * 0 == 0) by (nonlinear_arith); }
+    else {
+        assert(pn * (hi3 + 1) == pn * hi3 + pn) by (nonlinear_arith);
+        assert(pn * 1 == pn) by (nonlinear_arith);
+    }
+}
